@@ -110,6 +110,10 @@ fn upper_sum(lhs: f64, rhs: f64) -> f64 {
 #[derive(Debug, Clone)]
 pub(crate) struct BoundsAnalyzer {
     variable_bounds: IndexMap<String, Bounds>,
+    // a tightened Boolean cannot be published in the compiled domain, so Booleans
+    // are never tightened: lowering decisions must only rely on published bounds
+    boolean_variables: IndexSet<String>,
+    integer_variables: IndexSet<String>,
     tolerance: f64,
     reached_iteration_limit: bool,
     // a contradiction proves the model infeasible, which is a solver
@@ -122,6 +126,8 @@ impl Default for BoundsAnalyzer {
     fn default() -> Self {
         Self {
             variable_bounds: IndexMap::new(),
+            boolean_variables: IndexSet::new(),
+            integer_variables: IndexSet::new(),
             tolerance: DEFAULT_TOLERANCE,
             reached_iteration_limit: false,
             detected_infeasible: false,
@@ -260,6 +266,18 @@ impl BoundsAnalyzer {
                     )
                 })
                 .collect(),
+            boolean_variables: domain
+                .iter()
+                .filter(|(_, variable)| matches!(variable.get_type(), VariableType::Boolean))
+                .map(|(name, _)| name.clone())
+                .collect(),
+            integer_variables: domain
+                .iter()
+                .filter(|(_, variable)| {
+                    matches!(variable.get_type(), VariableType::IntegerRange(_, _))
+                })
+                .map(|(name, _)| name.clone())
+                .collect(),
             ..Self::default()
         }
     }
@@ -281,7 +299,22 @@ impl BoundsAnalyzer {
             ..Self::from_domain(domain)
         };
         analyzer.propagate_affine_constraints(constraints, options.max_steps);
+        // an integer variable whose derived interval holds no integral point keeps its
+        // declared domain (see `apply_to_domain`), so the derived interval is not published:
+        // record the infeasibility, the linearizer emits it as an explicit row
+        let tolerance = analyzer.tolerance;
+        if analyzer.integer_variables.iter().any(|name| {
+            analyzer.variable_bounds.get(name).is_some_and(|bounds| {
+                (bounds.lower - tolerance).ceil() > (bounds.upper + tolerance).floor()
+            })
+        }) {
+            analyzer.detected_infeasible = true;
+        }
         analyzer
+    }
+
+    pub(crate) fn detected_infeasible(&self) -> bool {
+        self.detected_infeasible
     }
 
     pub(crate) fn bounds_of(&self, exp: &Exp) -> Bounds {
@@ -378,6 +411,15 @@ impl BoundsAnalyzer {
     }
 
     pub(crate) fn insert_variable(&mut self, name: String, variable_type: &VariableType) {
+        match variable_type {
+            VariableType::Boolean => {
+                self.boolean_variables.insert(name.clone());
+            }
+            VariableType::IntegerRange(_, _) => {
+                self.integer_variables.insert(name.clone());
+            }
+            VariableType::NonNegativeReal(_, _) | VariableType::Real(_, _) => {}
+        }
         self.variable_bounds
             .insert(name, Bounds::from_variable_type(variable_type));
     }
@@ -640,6 +682,10 @@ impl BoundsAnalyzer {
             self.detected_infeasible = true;
             return false;
         };
+        if self.boolean_variables.contains(name) {
+            // the contradiction above is still detected, but [0, 1] is kept
+            return false;
+        }
         let changed = tightened.lower > current.lower + self.tolerance
             || tightened.upper < current.upper - self.tolerance;
         if changed {
